@@ -461,6 +461,8 @@ class WalletWorld:
 
     def op_send(self, wi):
         ch = self.ch
+        if len(wi.account_ids) > 1 and ch.coin('sweep_instead', 0.3):
+            return self.op_sweep(wi)        # emptying one of two accounts is the interesting case there
         h = self.H(wi)
         min_conf = ch.pick('minconf', [1, 0, 0, 0, 2] if self.focus != 'C07' else [1, 0, 0, 2, 3, 6])
         acc = self.acct(wi)
